@@ -31,6 +31,22 @@ func (f *FileImage) zero(d *rawDescriptor) error {
 	return err
 }
 
+// resize sets the size of the backing storage of f to n bytes, extending it with zero bytes if it
+// is currently shorter than that.
+func (f *FileImage) resize(n int64) error {
+	size, err := f.rw.Seek(0, io.SeekEnd)
+	if err != nil {
+		return err
+	}
+
+	if n <= size {
+		return f.rw.Truncate(n)
+	}
+
+	_, err = io.CopyN(f.rw, zeroReader{}, n-size)
+	return err
+}
+
 // deleteOpts accumulates object deletion options.
 type deleteOpts struct {
 	zero    bool
@@ -149,7 +165,7 @@ func (f *FileImage) DeleteObjects(fn DescriptorSelectorFunc, opts ...DeleteOpt) 
 	if do.compact {
 		f.h.DataSize = f.calculatedDataSize()
 
-		if err := f.rw.Truncate(f.h.DataOffset + f.h.DataSize); err != nil {
+		if err := f.resize(f.h.DataOffset + f.h.DataSize); err != nil {
 			return fmt.Errorf("%w", err)
 		}
 	}
